@@ -85,14 +85,15 @@ def run_logger(ctx, binary, data, seed, chunk, pause_ms, n, **kw):
 def run_logger1(ctx, binary, data, seed, chunk, pause_ms, n, paced=False, pre=b"", stall_out=0.0, rec_broken=False):
     d = ctx.path("run%d" % n)
     os.makedirs(d)
-    logdir = os.path.join(d, "rec")
+    # every third run keeps its record in a directory with a long name (a configuration file of 500-700 bytes)
+    logdir = os.path.join(d, "rec" if n % 3 else "records-of-the-reference-station-" + "x" * 180, "rtcm")
     if rec_broken:
         # the filestore of the record is full: every write to the day's file fails with ENOSPC (the name is a link to /dev/full)
-        os.makedirs(logdir)
+        os.makedirs(logdir, exist_ok=True)
         os.symlink("/dev/full", os.path.join(logdir, "rtcmlogger.%s.rtcm" % datetime.date.today().isoformat()))
     if pre:
         # the program is restarted on the same day: the day's record already exists and is continued
-        os.makedirs(logdir)
+        os.makedirs(logdir, exist_ok=True)
         with open(os.path.join(logdir, "rtcmlogger.%s.rtcm" % datetime.date.today().isoformat()), "wb") as f:
             f.write(pre)
     cfg = os.path.join(d, "cfg.json")
